@@ -1559,6 +1559,18 @@ class System:
             return None
 
         if mod.state is ProcessingState.UNPROCESSED:
+            # Python initialises a package before any of its sub-modules:
+            # the packages above the module go first, outermost first.
+            above: List[Module] = []
+            parent = mod.parent
+            while isinstance(parent, Module):
+                above.append(parent)
+                parent = parent.parent
+            for pack in reversed(above):
+                if pack.state is ProcessingState.UNPROCESSED:
+                    self.processModule(pack)
+
+        if mod.state is ProcessingState.UNPROCESSED:
             self.processModule(mod)
 
         assert mod.state in (ProcessingState.PROCESSING, ProcessingState.PROCESSED), mod.state
